@@ -69,7 +69,10 @@ ObsViol(o) ==
              \o ToString(Len(x.outs)), x.c, x.p) :
       x \in { y \in { o.actors[k] : k \in 1..Len(o.actors) } :
                 Last(y.cancl) = "ok" /\ Pol(y.c, y.p).out
-                /\ ck[<< y.c, y.p >>] \notin {"", "Init", "ValidateRequested"} /\ Len(y.outs) # 1 } }
+                \* (a state machine cancelled before it was given a policy knows no destination; "" = the cancel never
+                \*  passed the command gate, i.e. it was answered from inside another handler: the policy is known then)
+                /\ ck[<< y.c, y.p >>] \notin {"Init", "ValidateRequested"} /\ Last(y.sched) # "none"
+                /\ Len(y.outs) # 1 } }
   \cup
   { V("C15", "cancel returned Ok at a leader but its concurrency permit is not available", x.c, x.p) :
       x \in { y \in { o.actors[k] : k \in 1..Len(o.actors) } :
